@@ -13,6 +13,7 @@ from fvmon import gen
 from fvmon.observe import content, unbox, snap
 
 SPEC = {
+    "anchors": ["fibertree.core.fiber:Fiber.__eq__", "fibertree.core.tensor:Tensor.__eq__", "fibertree.core.payload:Payload.isEmpty", "fibertree.core.fiber:Fiber.isEmpty", "fibertree.core.fiber:Fiber.countValues", "fibertree.core.fiber:Fiber.nonEmpty"],
     "rule": ("cases = (i) grid sweep: every depth-2 tree over a 2x2 grid with cell states {absent, explicit default, "
              "v1, v2} and row states {absent, empty/all-default, present} compared (==, both orders) with every other "
              "such tree, free and tensor-owned, defaults 0 and 7; (ii) random families of depth 1-3: several "
